@@ -237,6 +237,10 @@ impl Recorder {
             digest: Mutex::new(BTreeMap::new()),
         }
     }
+    /// enough violations recorded: engines may stop exploring (the verdict is already VIOLATION)
+    pub fn saturated(&self) -> bool {
+        self.viol_count.load(Ordering::Relaxed) >= 2000
+    }
     pub fn add(&self, evals: u64, nontrivial: u64) {
         self.evaluations.fetch_add(evals, Ordering::Relaxed);
         self.nontrivial.fetch_add(nontrivial, Ordering::Relaxed);
